@@ -208,7 +208,13 @@ func (u *Unmarshaler) fillSlice(fieldType reflect.Type, value reflect.Value, map
 				conv.Index(i).Set(target.Elem())
 			}
 		case reflect.Slice:
-			if err := u.fillSlice(dereffedBaseType, conv.Index(i), ithValue); err != nil {
+			elem := conv.Index(i)
+			if baseKind == reflect.Ptr {
+				elem.Set(reflect.New(dereffedBaseType))
+				elem = elem.Elem()
+			}
+
+			if err := u.fillSlice(dereffedBaseType, elem, ithValue); err != nil {
 				return err
 			}
 		default:
@@ -241,9 +247,8 @@ func (u *Unmarshaler) fillSliceFromString(fieldType reflect.Type, value reflect.
 		return errUnsupportedType
 	}
 
-	baseFieldType := Deref(fieldType.Elem())
-	baseFieldKind := baseFieldType.Kind()
-	conv := reflect.MakeSlice(reflect.SliceOf(baseFieldType), len(slice), cap(slice))
+	baseFieldKind := Deref(fieldType.Elem()).Kind()
+	conv := reflect.MakeSlice(reflect.SliceOf(fieldType.Elem()), len(slice), cap(slice))
 
 	for i := 0; i < len(slice); i++ {
 		if err := u.fillSliceValue(conv, i, baseFieldKind, slice[i]); err != nil {
@@ -259,6 +264,9 @@ func (u *Unmarshaler) fillSliceValue(slice reflect.Value, index int,
 	baseKind reflect.Kind, value any) error {
 	ithVal := slice.Index(index)
 	switch v := value.(type) {
+	case nil:
+		// null 元素保持零值（与 fillSlice 跳过 nil 元素一致）
+		return nil
 	case fmt.Stringer:
 		return setValue(baseKind, ithVal, v.String())
 	case string:
@@ -268,23 +276,13 @@ func (u *Unmarshaler) fillSliceValue(slice reflect.Value, index int,
 	default:
 		// don't need to consider the difference between int, int8, int16, int32, int64,
 		// uint, uint8, uint16, uint32, uint64, because they're handled as json.Number.
-		if ithVal.Kind() == reflect.Ptr {
-			baseType := Deref(ithVal.Type())
-			if baseType.Kind() != reflect.TypeOf(value).Kind() {
-				return errTypeMismatch
-			}
-
-			target := reflect.New(baseType).Elem()
-			target.Set(reflect.ValueOf(value))
-			ithVal.Set(target.Addr())
-			return nil
+		// 元素类型可能是命名类型或指针（[]MyBool、[]*bool）：经 assignable 调整后再赋值。
+		elem, err := assignable(ithVal.Type(), reflect.ValueOf(value))
+		if err != nil {
+			return err
 		}
 
-		if ithVal.Kind() != reflect.TypeOf(value).Kind() {
-			return errTypeMismatch
-		}
-
-		ithVal.Set(reflect.ValueOf(value))
+		ithVal.Set(elem)
 		return nil
 	}
 }
@@ -331,11 +329,13 @@ func (u *Unmarshaler) generateMap(keyType, elemType reflect.Type, mapValue any) 
 		switch dereffedElemKind {
 		case reflect.Slice:
 			target := reflect.New(dereffedElemType)
-			if err := u.fillSlice(elemType, target.Elem(), keythData); err != nil {
+			if err := u.fillSlice(dereffedElemType, target.Elem(), keythData); err != nil {
 				return emptyValue, err
 			}
 
-			targetValue.SetMapIndex(key, target.Elem())
+			if err := setMapIndex(targetValue, key, target.Elem()); err != nil {
+				return emptyValue, err
+			}
 		case reflect.Struct:
 			keythMap, ok := keythData.(map[string]any)
 			if !ok {
@@ -347,10 +347,12 @@ func (u *Unmarshaler) generateMap(keyType, elemType reflect.Type, mapValue any) 
 				return emptyValue, err
 			}
 
-			if fieldElemKind == reflect.Ptr {
-				targetValue.SetMapIndex(key, target)
-			} else {
-				targetValue.SetMapIndex(key, target.Elem())
+			if fieldElemKind != reflect.Ptr {
+				target = target.Elem()
+			}
+
+			if err := setMapIndex(targetValue, key, target); err != nil {
+				return emptyValue, err
 			}
 		case reflect.Map:
 			keythMap, ok := keythData.(map[string]any)
@@ -358,12 +360,14 @@ func (u *Unmarshaler) generateMap(keyType, elemType reflect.Type, mapValue any) 
 				return emptyValue, errTypeMismatch
 			}
 
-			innerValue, err := u.generateMap(elemType.Key(), elemType.Elem(), keythMap)
+			innerValue, err := u.generateMap(dereffedElemType.Key(), dereffedElemType.Elem(), keythMap)
 			if err != nil {
 				return emptyValue, err
 			}
 
-			targetValue.SetMapIndex(key, innerValue)
+			if err := setMapIndex(targetValue, key, innerValue); err != nil {
+				return emptyValue, err
+			}
 		default:
 			switch v := keythData.(type) {
 			case bool:
@@ -371,26 +375,34 @@ func (u *Unmarshaler) generateMap(keyType, elemType reflect.Type, mapValue any) 
 					return emptyValue, errTypeMismatch
 				}
 
-				targetValue.SetMapIndex(key, reflect.ValueOf(v))
+				if err := setMapIndex(targetValue, key, reflect.ValueOf(v)); err != nil {
+					return emptyValue, err
+				}
 			case string:
 				if dereffedElemKind != reflect.String {
 					return emptyValue, errTypeMismatch
 				}
 
-				targetValue.SetMapIndex(key, reflect.ValueOf(v))
+				if err := setMapIndex(targetValue, key, reflect.ValueOf(v)); err != nil {
+					return emptyValue, err
+				}
 			case json.Number:
 				target := reflect.New(dereffedElemType)
 				if err := setValue(dereffedElemKind, target.Elem(), v.String()); err != nil {
 					return emptyValue, err
 				}
 
-				targetValue.SetMapIndex(key, target.Elem())
+				if err := setMapIndex(targetValue, key, target.Elem()); err != nil {
+					return emptyValue, err
+				}
 			default:
 				if dereffedElemKind != keythValue.Kind() {
 					return emptyValue, errTypeMismatch
 				}
 
-				targetValue.SetMapIndex(key, keythValue)
+				if err := setMapIndex(targetValue, key, keythValue); err != nil {
+					return emptyValue, err
+				}
 			}
 		}
 	}
